@@ -76,6 +76,24 @@ def workload(ctx):
             for n in (cap - 3, cap - 2, cap - 1):
                 if n >= 1:
                     ev.append(hl([0xE9] * n, shape, (), (w, h), tag="b256-fill"))
+    # texts that begin like a macro envelope and do not end like one (header without trailer, header only, trailer without header, the
+    # other macro's trailer position): they are ordinary texts
+    for hdr in (MACRO05, MACRO06):
+        for body in ([], [65], list(b"HELLO WORLD 123"), list(b"abc") + TRAIL[:1], list(b"12345678") + [4], TRAIL[::-1]):
+            ev.append(hl(hdr + body, tag="macro-like"))
+    ev.append(hl(list(b"HELLO") + TRAIL, tag="macro-like"))
+    # (9) end of a Text / C40 run, exhaustively over a small class alphabet: a run of 6..11 basic characters followed by EVERY 4-character
+    #     tail over {basic, shifted, digit, shift-2 punctuation, two extended characters} (backtracking at end of data: the remainder of the
+    #     value count modulo 3 x the character taken back x the free codewords of the symbol reached)
+
+    for base, alpha in ((97, [97, 65, 49, 37, 0xDA, 0x85]), (65, [65, 97, 49, 37, 0xDA, 0x85])):
+        for plen in (range(6, 12) if base == 97 or not ctx.quick else (8, 9)):
+            for tail in itertools.product(alpha, repeat=4):
+                if ctx.quick and base == 65 and hash(tail) % 3:
+                    continue
+                ev.append(hl([base] * plen + list(tail), tag="eod-tails"))
+    # the recorded instance of known finding C02-c40-text-end-of-data-unexpected-case (always replayed)
+    ev.append(hl(list("aaaaaaaaaaaA1\u00e9*\u00da".encode("latin-1")), tag="c40-eod-unexpected-case"))
     # (5) macro envelopes round a run of ONE mode's native characters, every length: the trailer (RS EOT) is not part of the encoded
     #     message, so end-of-data arithmetic that looks at the rest of the text must stop before it; with and without a tight MAX_SIZE
     for macro in (MACRO05, MACRO06):
@@ -224,8 +242,11 @@ def preds():
             and "refusal only when it does not fit" in e.get("failed", ()),
             # the refusal was PREDICTED by the encoder model (spec/DMEnc.tla reaches pc = "error" on this message under these hints although
             # the plain ASCII encodation fits) and is raised where the model raises it: the symbol-size feedback of a mode encoder
-            "refusal_predicted_by_encoder_model": lambda e: e.get("cwerr") == 1 and e.get("model_refuses") == 1 and e.get("model_mode") != 3
-            and e.get("failed") == ["refusal only when it does not fit"]}
+            "refusal_predicted_by_encoder_model": lambda e: e.get("cwerr") == 1 and e.get("model_refuses") == 1 and e.get("model_mode") in (0, 4, 5)
+            and e.get("failed") == ["refusal only when it does not fit"],
+            # the same, raised inside the C40 / Text encoder (end-of-data case analysis)
+            "c40_text_refusal_predicted_by_encoder_model": lambda e: e.get("cwerr") == 1 and e.get("model_refuses") == 1
+            and e.get("model_mode") in (1, 2) and e.get("failed") == ["refusal only when it does not fit"]}
 
 
 def run(ctx):
